@@ -605,6 +605,11 @@ def str_method(eng, st, recv, name, pos, kw):
 # ---------------------------------------------------------------- builtin functions
 def bi_len(eng, st, pos, kw):
     v = pos[0]
+    h = eng.hooks.get("len")
+    if h:
+        r = h(eng, st, v)
+        if r is not None:
+            return r
     if isinstance(v, VTuple):
         return [("ok", st, VInt(len(v.items)))]
     if isinstance(v, VObj) and v.kind == "pylist":
